@@ -239,7 +239,10 @@ TrHttp ==
                    (\A j \in 1..N : OutServed(Ln.out[j]) \in RefServeI(cfg, t, HttpInfoSeq[j])) \/ (ExplainHttp(cfg, t, Ln.out) /\ FALSE))
           /\ Check("NoCredsNoService",
                    \A j \in 1..N : (OutServed(Ln.out[j]) /\ NeedAuth(cfg, HttpReqSeq[j])) => CredWho(HttpReqSeq[j].c) # "invalid")
-          /\ Check("TricksNeverServed", \A j \in 1..N : OutServed(Ln.out[j]) => ~Tricky(HttpReqSeq[j].p))
+          /\ Check("TricksNeverServed",
+                   \A j \in 1..N : OutServed(Ln.out[j]) =>
+                        LET p == HttpReqSeq[j].p IN
+                        Canon(p) /\ (Tricky(p) => InSubtree(HttpReqSeq[j].m, FinalPath(p)) /\ Last(p) = "" /\ ~Tricky(Front(p))))
           /\ Check("ServedAs",
                    \A j \in 1..N : OutWho(Ln.out[j]) # 0 =>
                         OutWho(Ln.out[j]) = (IF RefWho(cfg, HttpReqSeq[j]) = "admin" THEN 2 ELSE 1))
